@@ -99,6 +99,19 @@ impl<S: MdkStorageProvider> Scene<S> {
         match t[1] {
             "PROCESS" => {
                 let (i, wr) = (n(2) as usize, n(3));
+                if i == 7 && self.invs.len() == 7 {
+                    // invitation 7 (built on first use): the inviter of group 2 removes B and re-adds it with a fresh key package;
+                    // B never sees the removal, so this is an invitation to a group B may be active in, at a LATER epoch
+                    let fresh_kp = kp(&self.b, &self._bk);
+                    let (a, _ak, gid) = &self.inviters[1];
+                    let bpk = self._bk.public_key();
+                    let built = (|| -> Option<UnsignedEvent> {
+                        a.remove_members(gid, &[bpk]).ok()?; a.merge_pending_commit(gid).ok()?;
+                        let r = a.add_members(gid, &[fresh_kp]).ok()?; a.merge_pending_commit(gid).ok()?;
+                        r.welcome_rumors?.first().cloned()
+                    })();
+                    match built { Some(rumor) => self.invs.push(Inv { rumor, shape: true, dec: true, kp: 3, gid: 2, id: Some(27) }), None => return (format!("{} | unbuilt=1", t.join(" ")), "UNKNOWN-CASE".into()) }
+                }
                 let inv = &self.invs[i];
                 let wid = EventId::from_byte_array([wr as u8 + 1; 32]);
                 let r = catch_unwind(AssertUnwindSafe(|| self.b.process_welcome(&wid, &inv.rumor)));
@@ -108,7 +121,7 @@ impl<S: MdkStorageProvider> Scene<S> {
             }
             "ACCEPT" | "DECLINE" => {
                 let i = n(2) as usize;
-                let w = self.invs[i].rumor.id.and_then(|id| self.b.get_welcome(&id).ok().flatten());
+                let w = self.invs.get(i).and_then(|x| x.rumor.id).and_then(|id| self.b.get_welcome(&id).ok().flatten());
                 let res = match w {
                     None => "err",
                     Some(w) => match catch_unwind(AssertUnwindSafe(|| if t[1] == "ACCEPT" { self.b.accept_welcome(&w) } else { self.b.decline_welcome(&w) })) { Ok(Ok(())) => "ok", Ok(Err(_)) => "err", Err(_) => "PANIC" },
@@ -148,10 +161,10 @@ fn run_all<S: MdkStorageProvider, F: Fn() -> S>(run: &mut Run, mk: F, backend: &
             let mut cur = vec![];
             for _ in 0..(len / 2 + g.below(len)) {
                 let k = g.below(100);
-                let inv = *g.pick(&[0u64, 0, 0, 6, 6, 1, 2, 3, 4, 5]);
-                cur.push(if k < 50 { format!("WL PROCESS {inv} {}", g.below(3) + if inv == 6 { 3 } else { 0 }) }
-                    else if k < 68 { format!("WL ACCEPT {}", *g.pick(&[0u64, 0, 6, 4])) }
-                    else if k < 82 { format!("WL DECLINE {}", *g.pick(&[0u64, 6, 0, 5])) }
+                let inv = *g.pick(&[0u64, 0, 0, 6, 6, 1, 2, 3, 4, 5, 7, 7]);
+                cur.push(if k < 50 { format!("WL PROCESS {inv} {}", g.below(3) + if inv == 6 { 3 } else if inv == 7 { 6 } else { 0 }) }
+                    else if k < 68 { format!("WL ACCEPT {}", *g.pick(&[0u64, 0, 6, 4, 6])) }
+                    else if k < 82 { format!("WL DECLINE {}", *g.pick(&[0u64, 6, 0, 5, 7])) }
                     else { format!("WL MSG {} {}", g.below(2) + 1, g.below(50)) });
             }
             seqs.push(cur);
@@ -197,7 +210,7 @@ fn run_all<S: MdkStorageProvider, F: Fn() -> S>(run: &mut Run, mk: F, backend: &
 }
 
 fn main() {
-    std::panic::set_hook(Box::new(|_| {}));
+    if std::env::var("VERIF_SHOW_PANIC").is_err() { std::panic::set_hook(Box::new(|_| {})); }
     let backend = arg("--backend").unwrap_or("mem".into());
     let out = arg("--out").unwrap_or(format!("/verif/.cache/run/welcome-{backend}"));
     let mut run = Run::new(&out, "random sequences of process / accept / decline over two real invitations (two inviters, two groups) and five malformed or foreign variants, three wrapper ids each (replays under new wrapper ids before and after acceptance), interleaved with application messages that set the last-message pointer; non-trivial = every executed step (each runs real OpenMLS welcome processing)");
